@@ -419,6 +419,12 @@ where
         let r = |z: MontyForm<N>| MontyForm::retrieve(&z).to_words().to_vec();
         let mut plus_assign = sel;
         plus_assign += &y2;
+        #[allow(clippy::clone_on_copy)]
+        let cloned = {
+            let mut t = *self;
+            t.clone_from(&x2);
+            t
+        };
         let results = vec![
             ("select", r(sel)),
             ("select.add(w)", r(sel.add(&y2))),
@@ -432,6 +438,8 @@ where
             ("select.neg()", r(sel.neg())),
             ("select.square()", r(sel.square())),
             ("select.div_by_2()", r(sel.div_by_2())),
+            ("clone_from", r(cloned)),
+            ("clone_from.add(w)", r(cloned.add(&y2))),
         ];
         Some(Cross {
             keep,
@@ -476,6 +484,39 @@ fn boxed_of(x: &[u64], limbs: usize) -> BoxedUint {
 }
 
 impl Rep for BoxedMontyForm {
+    /// The boxed form has no selection API; the way one of its values meets another modulus is `Clone::clone_from`
+    /// into an existing value (buffer and parameters of the destination are overwritten).
+    fn cross_select(&self, m2: &[u64], v: &[u64], w: &[u64], _form: u8) -> Option<Cross<Self>> {
+        let limbs = self.as_montgomery().as_words().len();
+        let odd = Option::<Odd<BoxedUint>>::from(Odd::new(boxed_of(m2, limbs)))?;
+        let p2 = BoxedMontyParams::new_vartime(odd);
+        let x2 = BoxedMontyForm::new(boxed_of(v, limbs), p2.clone());
+        let y2 = BoxedMontyForm::new(boxed_of(w, limbs), p2.clone());
+        let keep = {
+            let mut t = x2.clone();
+            t.clone_from(self);
+            t
+        };
+        let mut t = self.clone();
+        t.clone_from(&x2);
+        let r = |z: &BoxedMontyForm| z.retrieve().as_words().to_vec();
+        let results = vec![
+            ("clone_from", r(&t)),
+            ("clone_from.add(w)", r(&(&t + &y2))),
+            ("w.add(clone_from)", r(&(&y2 + &t))),
+            ("clone_from.sub(w)", r(&(&t - &y2))),
+            ("clone_from.mul(w)", r(&(&t * &y2))),
+            ("clone_from.neg()", r(&-&t)),
+        ];
+        Some(Cross {
+            keep,
+            params_selected: format!("{:?}", t.params()),
+            params_selected_alone: format!("{:?}", t.params()),
+            params_direct: format!("{:?}", p2),
+            mont: t.as_montgomery().as_words().to_vec(),
+            results,
+        })
+    }
     fn pow(&self, exp: u64, bits: u32) -> Self {
         self.pow_bounded_exp(&BoxedUint::from(exp), bits)
     }
@@ -1113,10 +1154,9 @@ fn run<C: Rep, D: Rep + Monty, B: Rep + Monty>(
                 if let Some(s) = c.as_mut() {
                     s.regs[*dst] = s.regs[*a].clone();
                 }
-                if let Some(s) = b.as_mut() {
-                    s.regs[*dst] = s.regs[*a].clone();
-                }
-                if let Some(s) = d.as_mut() {
+                macro_rules! cross_side {
+                    ($side:expr, $name:expr) => {
+                if let Some(s) = $side.as_mut() {
                     match guard(|| s.regs[*a].cross_select(m2, v, w, *form)) {
                         Guarded::Done(Some(x)) => {
                             out.ev("cross-select");
@@ -1128,25 +1168,25 @@ fn run<C: Rep, D: Rep + Monty, B: Rep + Monty>(
                             if x.params_selected != x.params_direct || x.params_selected_alone != x.params_direct {
                                 out.viol(
                                     "C08/params-mismatch",
-                                    format!("runtime:cross-select:params:w{}", plan.limbs),
+                                    format!("{}:cross-select:params:w{}", $name, plan.limbs),
                                     format!("selecting (choice = 1) a value of modulus {} over a value of modulus {} gave parameters {} (MontyParams alone: {}); built directly for that modulus: {}", hexw(m2), hexw(&to_words_n(&model.m, plan.limbs)), x.params_selected, x.params_selected_alone, x.params_direct),
                                     None,
                                 );
                             }
                             if big(&x.mont) >= mm2 {
-                                out.viol("C08/noncanonical", "runtime:cross-select".into(), format!("the selected value stores {} >= its modulus {}", hexw(&x.mont), hexw(m2)), None);
+                                out.viol("C08/noncanonical", format!("{}:cross-select", $name), format!("the selected value stores {} >= its modulus {}", hexw(&x.mont), hexw(m2)), None);
                             }
                             let sub = |a: &BigUint, b: &BigUint| (a + &mm2 - b) % &mm2;
                             let two = BigUint::from(2u8);
                             for (name, got) in &x.results {
                                 let want: BigUint = match *name {
-                                    "select" => vv.clone(),
-                                    "select.add(w)" | "w.add(select)" | "select + w" | "select += w" => (&vv + &ww) % &mm2,
-                                    "select.sub(w)" => sub(&vv, &ww),
+                                    "select" | "clone_from" => vv.clone(),
+                                    "select.add(w)" | "w.add(select)" | "select + w" | "select += w" | "clone_from.add(w)" | "w.add(clone_from)" => (&vv + &ww) % &mm2,
+                                    "select.sub(w)" | "clone_from.sub(w)" => sub(&vv, &ww),
                                     "w.sub(select)" => sub(&ww, &vv),
-                                    "select.mul(w)" => (&vv * &ww) % &mm2,
+                                    "select.mul(w)" | "clone_from.mul(w)" => (&vv * &ww) % &mm2,
                                     "select.double()" => (&vv * &two) % &mm2,
-                                    "select.neg()" => sub(&BigUint::default(), &vv),
+                                    "select.neg()" | "clone_from.neg()" => sub(&BigUint::default(), &vv),
                                     "select.square()" => (&vv * &vv) % &mm2,
                                     _ => {
                                         // halve: the x with 2x = v (mod m2); m2 odd
@@ -1156,7 +1196,7 @@ fn run<C: Rep, D: Rep + Monty, B: Rep + Monty>(
                                 if big(got) != want {
                                     out.viol(
                                         "C08/retrieve-mismatch",
-                                        format!("runtime:cross-select:{}", name),
+                                        format!("{}:cross-select:{}", $name, name),
                                         format!("after selecting (choice = 1) the value {} of modulus {} over a value of modulus {}, {} (w = {}) retrieves {} but Z/m2Z gives 0x{:x}", hexw(&to_words_n(&vv, plan.limbs)), hexw(m2), hexw(&to_words_n(&model.m, plan.limbs)), name, hexw(&to_words_n(&ww, plan.limbs)), hexw(got), want),
                                         None,
                                     );
@@ -1168,12 +1208,16 @@ fn run<C: Rep, D: Rep + Monty, B: Rep + Monty>(
                             s.regs[*dst] = s.regs[*a].clone();
                         }
                         Guarded::Panic(p) => {
-                            out.viol("C11/unexpected-panic", format!("monty:runtime:cross-select:{}", p.location), format!("selection between values of two moduli, or an operation on the result, panicked at {}: {}", p.location, p.message), None);
+                            out.viol("C11/unexpected-panic", format!("monty:{}:cross-select:{}", $name, p.location), format!("selection between values of two moduli, or an operation on the result, panicked at {}: {}", p.location, p.message), None);
                             s.regs[*dst] = s.regs[*a].clone();
                         }
                         Guarded::Budget => {}
                     }
                 }
+                    };
+                }
+                cross_side!(d, "runtime");
+                cross_side!(b, "boxed");
                 touched.push(*dst);
             }
             Op::Invert { dst, a, vartime } => {
@@ -1779,9 +1823,6 @@ impl TypedScenario for History {
         let srcs = [ParamsSrc::New, ParamsSrc::NewVartime, ParamsSrc::FromConst];
         // swarm weights over operation groups
         let mut w = [6u32, 1, 1, 6, 6, 6, 3, 3, 3, 3, 4, 4, 1, 2, 1, 1, 1, 1, 1, 1, 1, 2, 2, 2, 2];
-        if boxed_only {
-            w[24] = 0;
-        }
         for x in w.iter_mut() {
             if r.chance(1, 5) {
                 *x = 0;
